@@ -59,16 +59,17 @@ DEC_BOUNDS = {
               "lowrate grid: 8 LDPC blocks k 2..4, r 10..14, N1 5..7, all orders of every prefix up to 5-6 symbols; "
               "subsets mode: all 2^n received subsets for RS m=4 n<=12, m=8/codec1 n<=11, LDPC n<=13 (SAS+FIN, ascending DWS+FIN, descending DWS); "
               "large: RS (k,n) list up to 255 and LDPC (100,50),(40,20),(255,64),(1000,10),(700,6): all/first-k/last-k/k-1 symbols, single loss, one source replaced by one repair, cyclic windows, periodic losses, on strides; "
+              "rows (C01, C03, C07): LDPC k 2..20, r 3..12, N1 3..5, seeds 1..3 (n<=44): every single equation, pair, and triple touching the first or last equation erased completely, everything else received, FINISH through both APIs; "
               "lens: 10 configurations x symbol lengths 1..40,63,64,65 x buffer alignments 0..7 (half of them above length 20) x callback none/buffer, plus the limits (k=1, k=n-1=254, n=255, m=4 n=15, LDPC n=5000)"),
     "thorough": ("BFS: RS n<=9, LDPC k<=7,r<=7,n<=12,N1<=6,5 seeds; SAS subsets n<=12; lowrate: 16 blocks up to n=26, prefixes up to 6-7 symbols; "
                  "subsets: RS m=4 all (k,n) n<=15, m=8/codec1 n<=14, LDPC n<=16 and the n=20 list; large: all strides 1, double losses / replacements, LDPC (1000,500),(3000,12); "
-                 "lens: all alignments at all lengths, LDPC n=50000 limits; rand() scripts: all r^r for r<=4, <=2 deviations for r<=5, <=1 otherwise"),
+                 "rows: k up to 28, r up to 16, 12 seeds, every union of at most three equations; lens: all alignments at all lengths, LDPC n=50000 limits; rand() scripts: all r^r for r<=4, <=2 deviations for r<=5, <=1 otherwise"),
 }
 
 PROPS["C01"] = {
     "level": "model_checking", "rule": DEC_RULE, "bounds": DEC_BOUNDS, "assumptions": DEC_ASSUME,
     "claim": "every reachable state of the decoder explorer (all arrival orders, duplicates, both submission APIs, with/without FINISH, callback none/buffer) on the small grids, every received subset on the medium grids and the enumerated loss families on the large ones: each non-NULL source-table entry is byte-identical to the encoded symbol and completion implies all k entries; exhaustive within the stated bounds",
-    "runs": dec_runs("trk", "nb", "rs,ldpc", ["bfs", "subsets", "large", "lens"], 1, 2) + [lowrate_run("trk", "nb", 5, 6, False)],
+    "runs": dec_runs("trk", "nb", "rs,ldpc", ["bfs", "subsets", "large", "lens", "rows"], 1, 2) + [lowrate_run("trk", "nb", 5, 6, False)],
 }
 PROPS["C02"] = {
     "level": "model_checking", "rule": DEC_RULE, "bounds": DEC_BOUNDS, "assumptions": DEC_ASSUME,
@@ -78,7 +79,7 @@ PROPS["C02"] = {
 PROPS["C03"] = {
     "level": "model_checking", "rule": DEC_RULE, "bounds": DEC_BOUNDS, "assumptions": DEC_ASSUME + ["H_ref comes from the independent RFC 5170 transcription; 'uniquely determined' <=> rank(H restricted to unknown columns) = number of unknown columns (staircase columns are independent)"],
     "claim": "FINISH from every reachable pre-finish state (all orders, both APIs) and for every received subset: complete-after-finish <=> rank condition on the reference matrix, for every explored rand() script (all r^r for r<=4, <=1/2 deviations otherwise)",
-    "runs": dec_runs("trk", "nb", "ldpc", ["bfs", "subsets", "large", "lens"], 1, 2) + [lowrate_run("trk", "n", 5, 6, False)],
+    "runs": dec_runs("trk", "nb", "ldpc", ["bfs", "subsets", "large", "lens", "rows"], 1, 2) + [lowrate_run("trk", "n", 5, 6, False)],
 }
 PROPS["C04"] = {
     "level": "model_checking", "rule": DEC_RULE, "bounds": DEC_BOUNDS, "assumptions": DEC_ASSUME + ["peeling closure computed on the independent RFC 5170 matrix"],
@@ -89,7 +90,7 @@ PROPS["C07"] = {
     "level": "model_checking", "rule": DEC_RULE, "bounds": DEC_BOUNDS,
     "assumptions": DEC_ASSUME + ["AddressSanitizer build (-O1) of library and harness; symbol buffers are exact-size heap blocks ending at the end of their malloc block, pointer tables have exactly n resp. k entries", "blind spot: reads before a buffer start that stay inside the alignment padding (offsets 1..7)"],
     "claim": "the decoder explorations re-run under AddressSanitizer with exact-size application buffers and pristine-copy comparison after every call, plus symbol lengths 1..40,63,64,65 x alignments 0..7 and the parameter limits: no ASan report, no signal, no application buffer or table modified, in any explored state including release at every state",
-    "runs": dec_runs("asan", "nbNz", "rs,ldpc", ["bfs", "lens", "large"]) + dec_runs("trk", "nb", "rs,ldpc", ["lens"]) + [lowrate_run("asan", "nb", 5, 6, False)],
+    "runs": dec_runs("asan", "nbNz", "rs,ldpc", ["bfs", "lens", "large", "rows"]) + dec_runs("trk", "nb", "rs,ldpc", ["lens"]) + [lowrate_run("asan", "nb", 5, 6, False)],
     "budget": {"quick": 900, "thorough": 7200},
 }
 PROPS["C08"] = {
